@@ -38,6 +38,8 @@ class Handler(object):
     self.calls.append((name, args))
     if self.outcome == 'declared':
       raise T.SvcError('declared-é', 7)
+    if self.outcome == 'denied':
+      raise T.AuthError('no-é')
     if self.outcome == 'appexc':
       raise TApplicationException(TApplicationException.INTERNAL_ERROR, 'app-failure')
     if self.outcome == 'crash':
@@ -64,6 +66,12 @@ class Handler(object):
 
   def fire(self, s):
     return self._do('fire', (s,))
+
+  def fetch(self, key):
+    return self._do('fetch', (key,))
+
+  def touch(self, key):
+    return self._do('touch', (key,))
 
 
 class Peer(object):
@@ -180,6 +188,12 @@ def cases():
   for a, b in ((0, 0), (1, -1), (2147483647, -2147483648)):
     out.append(('vsvc', 'add', (a, b), 'value', (a + b) % 7))
   out.append(('vsvc', 'add', (1, 2), 'value', 0))                  # zero is a value
+  out.append(('vsvc', 'fetch', ('k',), 'value', T.Resp('f', ['x'])))
+  out.append(('vsvc', 'fetch', ('é',), 'declared', None))
+  out.append(('vsvc', 'fetch', ('k',), 'denied', None))            # second declared exception (field 2, another name)
+  out.append(('vsvc', 'fetch', ('k',), 'value', None))             # missing result
+  out.append(('vsvc', 'touch', ('k',), 'value', None))             # void
+  out.append(('vsvc', 'touch', ('k',), 'denied', None))
   out.append(('vsvc', 'fire', ('go',), 'value', None))             # oneway: request bytes only
   return out
 
@@ -190,9 +204,11 @@ def expected(case):
     return ('oneway',)
   if outcome == 'declared':
     return ('scales-error', 'SvcError')
+  if outcome == 'denied':
+    return ('scales-error', 'AuthError')
   if outcome in ('appexc', 'crash'):
     return ('scales-error', 'TApplicationException')
-  if method in ('ping', 'check'):
+  if method in ('ping', 'check', 'touch'):
     return ('value', None)
   if value is None:
     return ('scales-error', 'TApplicationException')        # missing result -> the library raises MISSING_RESULT
@@ -285,6 +301,45 @@ def run_cases(case_idx, max_cuts, shard=(0, 1)):
   return {'n': n, 'keys': len(keys), 'viol': viol, 'sample': sample}
 
 
+def run_sequences(first_idx):
+  """History dependence: on ONE client (one serializer, one connection) every ordered pair and triple of cases that
+  starts with a case in first_idx; each call must produce what the same case produces on a fresh client."""
+  VSvc, VBase, T = vsvc()
+  H = hello()
+  allc = cases()
+  usable = [i for i, c in enumerate(allc) if c[1] != 'fire']
+  viol = []
+  n = 0
+  keys = set()
+  seqs = []
+  for a in first_idx:
+    if a not in usable:
+      continue
+    ikey = allc[a][0]
+    same = [i for i in usable if allc[i][0] == ikey]
+    seqs = [(a, b) for b in same] + [(a, b, c) for b in same for c in same if allc[b][3] != 'value' or allc[c][3] != 'value']
+    for seq in seqs:
+      world.reset()
+      ch = Chain(H.Iface, H.Processor) if ikey == 'hello' else Chain(VSvc.Iface, VSvc.Processor)
+      ok = True
+      for pos, ci in enumerate(seq):
+        case = allc[ci]
+        ch.handler.outcome, ch.handler.value = case[3], case[4]
+        ar, sent, reqs, reply = ch.call(case[1], case[2], [])
+        n += 1
+        got, want = observe(ar), expected(case)
+        keys.add((seq[:pos + 1], got[0]))
+        if got != want:
+          viol.append({'clause': 'C14.history', 'message': 'on one client, after calls %r the call %s%r (server: %s) produced %r, expected %r'
+                       % ([(allc[i][1], allc[i][3]) for i in seq[:pos]], case[1], case[2], case[3], got, want),
+                       'sig': {'method': case[1]}, 'replay': {'sequence': [[allc[i][1], allc[i][3]] for i in seq]}})
+          ok = False
+          break
+      if not ok and len(viol) >= 3:
+        return {'n': n, 'keys': len(keys), 'viol': viol, 'sample': None}
+  return {'n': n, 'keys': len(keys), 'viol': viol, 'sample': {'sequence': [[allc[i][1], allc[i][3]] for i in seqs[-1]]} if seqs else None}
+
+
 def run_readall(max_len, max_cuts):
   """ScalesSocket.readAll and VarzSocketWrapper.readAll directly: every split of a byte string."""
   import gevent
@@ -368,6 +423,7 @@ def main(tier, seed):
   pool = explore.make_pool()
   try:
     out = explore.pmap('vt.checks.c14', 'run_cases', jobs, pool, seed)
+    out += explore.pmap('vt.checks.c14', 'run_sequences', [([i],) for i in range(len(allc))], pool, seed)
     out += explore.pmap('vt.checks.c14', 'run_readall', [(7 if tier == 'quick' else 9, 3 if tier == 'quick' else 4)], pool, seed)
   finally:
     pool.close()
@@ -386,7 +442,8 @@ def main(tier, seed):
   return rep.finish(
     rule='every (interface, method, argument, server outcome) case x every split of the reply byte stream with <= k cut points plus '
          'one-byte-at-a-time, through the real serializer + transport + socket wrappers; request bytes decoded by the generated '
-         'Processor; readAll of both socket classes over every split of short strings', exhaustive=True)
+         'Processor; every ordered pair (and the triples containing a non-value outcome) of cases on ONE client, each call compared '
+         'with its outcome on a fresh client; readAll of both socket classes over every split of short strings', exhaustive=True)
 
 
 def replay(path):
